@@ -288,8 +288,11 @@ def check_macros(ctx, tag, L, m, suffix, N, built, nmax, wrong=None, Nall=None):
                         scale=wsum(top, lambda lab: 5.0 * L.sig[(lab, "fission")][g]) + 1e-30)
         ctx.check_close("%s group %d: absorption = capture (n,gamma; n,alpha; n,p; n,d; n,t) + fission + n2n" % (tag, g),
                         flat(m.absorption)[g], sum(flat(m[r])[g] for r in xc.ABSORPTION_XS), scale=absScale[g])
-        ctx.check_close("%s group %d: D x 3 Sigma_tr = 1" % (tag, g),
-                        flat(m.diffusionConstants)[g] * 3.0 * flat(m.transport)[g], 1.0, scale=1.0)
+        # (a composition without any counted nuclide has Sigma_tr = 0 and no finite diffusion constant)
+        counted = OR(*[x > 0 for x in mine.values()]) if mine else False
+        if not bool(NOT(counted)):
+            ctx.check_close("%s group %d: D x 3 Sigma_tr = 1" % (tag, g),
+                            flat(m.diffusionConstants)[g] * 3.0 * flat(m.transport)[g], 1.0, scale=1.0)
     mats = {k: dense(m[k]) for k in MATRICES}
     tot = dense(m.totalScatter)
     scatScale = 0.0
@@ -331,7 +334,7 @@ def check_macros(ctx, tag, L, m, suffix, N, built, nmax, wrong=None, Nall=None):
 # (numpy UFuncTypeError: absorption += None) for a block without any nuclide above the minimum density (all densities
 # zero, or all at or below minimumNuclideDensity): computeMacroscopicGroupConstants returns None for it and
 # _computeAbsorptionXS adds that None.  With the flag True the compositions keep at least one counted nuclide.
-KNOWN_DEFECT_creator_raises_on_empty_composition = True
+KNOWN_DEFECT_creator_raises_on_empty_composition = False  # repaired in /repo (fix: 6362b47)
 
 
 def arrays_of(m):
@@ -348,9 +351,11 @@ def arrays_of(m):
          stubs=STUBS, qtimeout_ms=20000,
          instances={"quick": [dict(build=True, how="same", second="AB"),
                               dict(build=False, how="new", second="AA")],
-                    "thorough": [dict(build=b, how=h, second=s, ng=g, minDens=md)
+                    "thorough": [dict(build=b, how=h, second=s, ng=g)
                                  for b in (True, False) for h in ("same", "new", "list") for s in ("AA", "AB")
-                                 for g in (2, 3) for md in (False, True)]})
+                                 for g in (2, 3)] +
+                                [dict(build=True, how="same", second="AB", minDens=True),
+                                 dict(build=False, how="new", second="AA", minDens=True)]})
 def creator_calls_do_not_share_state(ctx, build, how, second, ng=2, minDens=False):
     fresh_process_state()
     L = XLib(ctx, ng, LIBRARY)
@@ -372,16 +377,23 @@ def creator_calls_do_not_share_state(ctx, build, how, second, ng=2, minDens=Fals
     before = L.snapshot()
     kw = dict(buildScatterMatrix=build, minimumNuclideDensity=thr)
     mc = xc.MacroscopicCrossSectionCreator(**kw)
-    if how == "list":
-        mc.createMacrosOnBlocklist(L.lib, [c1, c2])
-        m1, m2 = c1.macros, c2.macros
-        snap1 = None
-    else:
-        m1 = mc.createMacrosFromMicros(L.lib, c1)
-        snap1 = macro_snapshot(m1)
-        if how == "new":
-            mc = xc.MacroscopicCrossSectionCreator(**kw)
-        m2 = mc.createMacrosFromMicros(L.lib, c2)
+    try:
+        if how == "list":
+            mc.createMacrosOnBlocklist(L.lib, [c1, c2])
+            m1, m2 = c1.macros, c2.macros
+            snap1 = None
+        else:
+            m1 = mc.createMacrosFromMicros(L.lib, c1)
+            snap1 = macro_snapshot(m1)
+            if how == "new":
+                mc = xc.MacroscopicCrossSectionCreator(**kw)
+            m2 = mc.createMacrosFromMicros(L.lib, c2)
+        failed = False
+    except TypeError:
+        failed = True
+    ctx.check("no exception: also a composition without any counted nuclide has macroscopic data (zeros)", not failed)
+    if failed:
+        return
     # nuclides at or below the minimum density are left out of the sums
     E1 = {n: (ITE(x > thr, x, 0.0) if minDens else x) for n, x in N1.items()}
     E2 = {n: (ITE(x > thr, x, 0.0) if minDens else x) for n, x in N2.items()}
